@@ -36,6 +36,35 @@ def generic_replay(pid, mod, res, data):
     return res.finish()
 
 
+# checks cheap enough to be repeated in full in an interpreter started with -O (assert statements and `if __debug__`
+# blocks stripped): a side effect hidden in an assert changes behaviour only there.  The model checkers (C01-C04)
+# repeat a sample of their calls under -O themselves (mc_common.run_cases).
+OPT_PASS = {'C05', 'C08', 'C09', 'C10', 'C11', 'C12', 'C13', 'C14', 'C16', 'C17', 'C18'}
+
+
+def optimized_pass(pid, tier, res):
+    import subprocess
+    import time
+    t0 = time.time()
+    p = subprocess.run([sys.executable, '-O', os.path.abspath(__file__), pid, '--tier', tier],
+                       env=dict(os.environ, VERIF_CHILD='1'), stdout=subprocess.PIPE, stderr=subprocess.STDOUT, text=True)
+    lines = p.stdout.splitlines()
+    n = 0
+    for i, l in enumerate(lines):
+        if l.startswith('VIOLATION'):
+            n += 1
+            what = lines[i + 1].strip() if i + 1 < len(lines) else ''
+            path = l.split('replay=')[1].split()[0]
+            res.violation('when the interpreter runs with -O (python -O / PYTHONOPTIMIZE=1): ' + what,
+                          {'replay_of_the_run_under_O': path, 'history': 'run the same check with python -O'},
+                          no_input=l.rstrip().endswith('no-failing-input-found'))
+    if p.returncode not in (0, 1):
+        raise common.HarnessError('the repetition under python -O ended with exit %d: %s' % (p.returncode, p.stdout[-400:]))
+    res.coverage['repeated_in_full_under_python_O'] = True
+    res.coverage['violations_only_under_python_O'] = n
+    res.coverage['wall_s_under_python_O'] = round(time.time() - t0, 1)
+
+
 def main():
     args = sys.argv[1:]
     if not args:
@@ -65,6 +94,8 @@ def main():
             rc = generic_replay(pid, mod, res, data)
             sys.exit(rc)
         mod.run(res)
+        if pid in OPT_PASS and sys.flags.optimize == 0 and not os.environ.get('VERIF_CHILD'):
+            optimized_pass(pid, tier, res)
         rc = res.finish()
     except common.HarnessError as e:
         print('HARNESS-ERROR property=%s %s' % (pid, e))
